@@ -572,3 +572,119 @@ def run_rebase(run, P, units=('coap_pdu.c',)):
             return env
         solve(f, Env(), on_event, None, keys, R, key_fn=lambda e: e.ts.get('moved'), on_branch=on_branch)
     run.require(n >= 1 or run.fixture_mode, 'R-FIXUP(re-basing): no function that re-points pdu->token at a reallocated block found in %s' % (units,))
+
+
+def run_capacity(run, P, anchor='coap_pdu_check_resize', grow=('coap_pdu_resize',)):
+    """R-FIXUP (capacity contract): every editor asks coap_pdu_check_resize(pdu, size) before it moves bytes, and moves them when the answer is
+    1.  So on every path that returns non-zero the buffer holds `size` bytes: either the path knows alloc_size >= size (the false arm of
+    `size > pdu->alloc_size`), or it passed coap_pdu_resize(pdu, N) with N known >= size at the call.  "Known >= size" is a relation fact kept
+    per variable: established by the arm of a comparison with the size parameter that says so (`size > N` false, `N < size` false, ...),
+    kept by `N *= K` / `N += ..`, lost by any other assignment to N -- e.g. the clamp `new_size = pdu->max_size`, after which only the
+    following `if (new_size < size) return 0` restores it.  A check that answers 1 for a size the clamped buffer cannot hold lets
+    coap_insert_option() shift the payload before coap_opt_encode() refuses: a refused option has then corrupted the message."""
+    from core.psts import Env, solve, relevance, apply_generic
+    from core.prog import key
+    run.rule('R-FIXUP')
+    if not P.has(anchor):
+        run.require(run.fixture_mode or run.cfg != 'base', 'R-FIXUP(capacity): anchor function %s() not found' % anchor)
+        return
+    f = P.func(anchor)
+    params = f.get('params') or ()
+    run.require(len(params) >= 2, 'R-FIXUP(capacity): %s() no longer takes (pdu, size)' % anchor)
+    S = 'v%s' % params[1]['id']
+    name = f['name']
+
+    def is_size(x):
+        x = strip(x)
+        return isinstance(x, dict) and x.get('k') == 'var' and ap(x) == S
+
+    def cap_key(x):
+        x = strip(x)
+        if isinstance(x, dict) and x.get('k') in ('var', 'mem') and not is_size(x):
+            return key(x)
+        return None
+    rets = [ev for b, ev in P.events(f) if ev['e'].get('k') == 'ret']
+    calls = [ev for b, ev in P.events(f) if ev.get('top', True) is not None and ev['e'].get('k') == 'call' and ev['e'].get('fn') in grow]
+    run.require(bool(calls), 'R-FIXUP(capacity): %s() no longer calls %s' % (anchor, '/'.join(grow)))
+
+    def is_rule_event(ev):
+        t = ev['e']
+        return t.get('k') in ('ret',) or (t.get('k') == 'call' and t.get('fn') in grow) or (t.get('k') in ('asg', 'un', 'decl'))
+    keys, R = relevance(f, is_rule_event)
+    keys = set(b['id'] for b in f['blocks'])
+    rep = set()
+
+    def ge(env):
+        return env.ts.get('ge', frozenset())
+
+    def on_branch(b, s, env, ctx):
+        c = strip((b.get('term') or {}).get('cond'))
+        if not (isinstance(c, dict) and c.get('k') == 'bin' and c.get('op') in ('<', '>', '<=', '>=') and len(b['succ']) == 2):
+            return env
+        truth = s == b['succ'][0]
+        op = c['op']
+        l, r = c['l'], c['r']
+        if is_size(r) and cap_key(l):            # N op size
+            op = {'<': '>', '>': '<', '<=': '>=', '>=': '<='}[op]
+            l, r = r, l
+        if not (is_size(l) and cap_key(r)):
+            return env
+        # size op N
+        holds = (op == '>' and not truth) or (op == '<=' and truth)
+        if holds:
+            e = env.copy()
+            e.ts['ge'] = ge(env) | {cap_key(r)}
+            return e
+        return env
+
+    def drop(env, k_):
+        if k_ in ge(env):
+            e = env.copy()
+            e.ts['ge'] = ge(env) - {k_}
+            return e
+        return env
+
+    def on_event(ev, env, ctx):
+        t = ev['e']
+        k = t.get('k')
+        if not ev.get('top', True) and k != 'decl':
+            return None
+        if k == 'asg' and cap_key(t['l']):
+            keeps = t.get('op') in ('*=', '+=', '<<=') or (t.get('op') == '=' and cap_key(t['r']) in ge(env)) or \
+                    (t.get('op') == '=' and is_size(t['r']))
+            e = apply_generic(ev, env, R)
+            if keeps and t.get('op') == '=':
+                e = e.copy()
+                e.ts['ge'] = ge(e) | {cap_key(t['l'])}
+            elif not keeps:
+                e = drop(e, cap_key(t['l']))
+            return [e]
+        if k == 'decl':
+            e = env
+            for d in t.get('d') or ():
+                e = drop(e, 'v%s' % d['id'])
+            return [apply_generic(ev, e, R)] if e is not env else None
+        if k == 'call' and t.get('fn') in grow:
+            a = t.get('a') or ()
+            n_ok = len(a) >= 2 and (cap_key(a[1]) in ge(env) or is_size(a[1]))
+            e = apply_generic(ev, env, R).copy()
+            e.ts['grown'] = 'ok' if n_ok else 'short:' + (short(a[1])[:30] if len(a) >= 2 else '?')
+            e.ts['ge'] = frozenset(x for x in ge(e) if 'alloc_size' not in x)
+            return [e]
+        if k == 'ret':
+            v = const_int(t.get('e')) if t.get('e') is not None else None
+            if v == 0:
+                return None
+            ok = env.ts.get('grown') == 'ok' or (env.ts.get('grown') is None and any('alloc_size' in x for x in ge(env)))
+            run.oblige('R-FIXUP', ok, '%s:answers-yes-only-with-capacity' % name)
+            if not ok and (ev['loc'], env.ts.get('grown')) not in rep:
+                rep.add((ev['loc'], env.ts.get('grown')))
+                g = env.ts.get('grown')
+                run.violation('R-FIXUP', name, ev['loc'], 'yes-without-capacity',
+                              '%s() answers "fits" on a path on which %s: the editors then move payload and options for an option that coap_opt_encode() must refuse, '
+                              'and the refused option has already damaged the message'
+                              % (name, ('the buffer was grown to `%s`, which is not known to be >= the requested size at that call (the value was assigned after the last '
+                                        'comparison with size)' % g[6:]) if g else 'neither alloc_size >= size is known nor the buffer was grown'), ctx.path())
+        return None
+    run.instance('R-FIXUP', '%s: a non-zero answer is given only with alloc_size >= size known or after growing to a size known >= size' % name)
+    solve(f, Env(), on_event, None, keys, R, key_fn=lambda e: (e.ts.get('ge'), e.ts.get('grown')), on_branch=on_branch)
